@@ -16,7 +16,9 @@ CLAIM = (
     "transform_joined_str the literal parts of a formatted string reach the output through the target's literal function exactly once, and "
     "the escaping required by the target's interpolation syntax (doubled braces for Python f-strings and C# `$\"`, `${` for TypeScript "
     "templates, %% for Go's Sprintf, none for the concatenating Java and C++) is applied to them and nowhere else; (7) the C++ SDK matches patterns with the regex VM, whose "
-    "quantifier expansion and `.*$` shortcut are checked as in C18 (REP, SUFFIX-OPT)."
+    "quantifier expansion and `.*$` shortcut are checked as in C18 (REP, SUFFIX-OPT); (8) PAREN: an operand is emitted without parentheses only on paths where its own node kind was "
+    "tested, and the kinds exempted are atomic; (9) DEREF: the C++ and Go transpilers, whose optionals are not values, pass every operand "
+    "of !, &&, ||, +, -, an implication and a quantifier condition through their dereference-if-optional helper (found structurally)."
 )
 NOTE = (
     "Trusted base: operator oracle table; identification of the transpiled operands by the names bound from self.transform(node.<field>). "
